@@ -18,9 +18,15 @@ import importlib
 import multiprocessing as mp
 
 VERIF = os.path.dirname(os.path.dirname(os.path.abspath(__file__)))
-EVIDENCE_DIR = os.path.join(VERIF, 'evidence')
-REPLAY_DIR = os.path.join(VERIF, 'replays')
+# The registered commands use the defaults (/repo, /verif/evidence, /verif/replays). The overrides exist for the
+# development sweep over seeded changes (tools/sweep_seeded.py), which runs the checks against a scratch copy of the
+# repository without touching /repo or the committed evidence.
+REPO = os.environ.get('VERIF_REPO', '/repo').rstrip('/')
+EVIDENCE_DIR = os.environ.get('VERIF_EVIDENCE_DIR', os.path.join(VERIF, 'evidence'))
+REPLAY_DIR = os.environ.get('VERIF_REPLAY_DIR', os.path.join(VERIF, 'replays'))
 KNOWN_FILE = os.path.join(VERIF, 'known_findings.json')
+if REPO != '/repo':
+    sys.path.insert(0, REPO)
 
 HOLDS, VIOLATION, INCONCLUSIVE, HARNESS_ERROR, SKIPPED = 'holds', 'violation', 'inconclusive', 'harness_error', 'skipped'
 
@@ -268,8 +274,8 @@ def _z3_version():
 def _repo_head():
     try:
         import subprocess
-        h = subprocess.run(['git', '-C', '/repo', 'rev-parse', '--short', 'HEAD'], capture_output=True, text=True).stdout.strip()
-        d = subprocess.run(['git', '-C', '/repo', 'status', '--porcelain', '--untracked-files=no'], capture_output=True, text=True).stdout.strip()
+        h = subprocess.run(['git', '-C', REPO, 'rev-parse', '--short', 'HEAD'], capture_output=True, text=True).stdout.strip()
+        d = subprocess.run(['git', '-C', REPO, 'status', '--porcelain', '--untracked-files=no'], capture_output=True, text=True).stdout.strip()
         return h+('+dirty' if d else '')
     except Exception:
         return '?'
@@ -285,8 +291,8 @@ class FuncTracer:
         if event == 'call':
             co = frame.f_code
             fn = co.co_filename
-            if fn.startswith('/repo/adsg_core/'):
-                self.names.add(f'{fn[len("/repo/"):-3].replace("/", ".")}.{co.co_qualname}')
+            if fn.startswith(REPO+'/adsg_core/'):
+                self.names.add(f'{fn[len(REPO)+1:-3].replace("/", ".")}.{co.co_qualname}')
 
     def __enter__(self):
         sys.setprofile(self._prof)
